@@ -468,9 +468,11 @@ def _trimstr(dbmodel, expression):
         + dbmodel.expr_to_sql(expression.args[0], want_inline_parens=False)
         + ", 1 + "
         + dbmodel.expr_to_sql(expression.args[1], want_inline_parens=False)
-        + ", "
+        + ", ("  # SUBSTR takes a length: characters start .. stop - 1
         + dbmodel.expr_to_sql(expression.args[2], want_inline_parens=False)
-        + ")"
+        + ") - ("
+        + dbmodel.expr_to_sql(expression.args[1], want_inline_parens=False)
+        + "))"
     )
 
 
